@@ -102,4 +102,50 @@ def step (s : St) : Ev → St
 
 def run (s : St) (evs : List Ev) : St := evs.foldl step s
 
+/-! ## Overlapping calls
+
+`subscribe` / `unsubscribe` are coroutines: several can be in flight on one pairing.  What each does to
+`pairing.subscriptions` is atomic and in place, at a definite point of the call:
+
+* `subscribe(cs)`  : `subscriptions.update(cs)` when the call STARTS (before it waits for the connection or the answer);
+* `unsubscribe(cs)`: `subscriptions.difference_update(cs - refused)` when the call RETURNS (after the accessory's answer),
+  or at once when the pairing is not connected.
+
+The accessory registers / unregisters when a request ARRIVES; a (re)connection asks again for everything in
+`subscriptions` at that moment. -/
+
+inductive OEv
+  | addWanted (cs : List Ch)     -- a subscribe() starts
+  | removeWanted (cs : List Ch)  -- an unsubscribe() returns normally (cs = its argument minus what the accessory refused)
+  | accReg (cs : List Ch)        -- a subscription request arrives at the accessory
+  | accUnreg (cs : List Ch)      -- an unsubscription request arrives at the accessory
+  | drop                         -- the connection goes away
+  | reconnect                    -- a new session: everything wanted is asked for again
+  deriving DecidableEq, Repr
+
+structure OSt where
+  wanted : List Ch := []
+  registered : List Ch := []
+  deriving DecidableEq, Repr
+
+def ostep (s : OSt) : OEv → OSt
+  | .addWanted cs => { s with wanted := union s.wanted cs }
+  | .removeWanted cs => { s with wanted := diff s.wanted cs }
+  | .accReg cs => { s with registered := union s.registered cs }
+  | .accUnreg cs => { s with registered := diff s.registered cs }
+  | .drop => { s with registered := [] }
+  | .reconnect => { s with registered := union [] s.wanted }
+
+def orun (s : OSt) (evs : List OEv) : OSt := evs.foldl ostep s
+
+/-- what an event decides about characteristic `x` being wanted: `some true` (a subscribe naming it started),
+    `some false` (an unsubscribe naming it returned), `none` (says nothing about `x`) -/
+def effectOn (x : Ch) : OEv → Option Bool
+  | .addWanted cs => if cs.contains x then some true else none
+  | .removeWanted cs => if cs.contains x then some false else none
+  | _ => none
+
+/-- the last event of the history that decides about `x` -/
+def lastEffect (x : Ch) (evs : List OEv) : Option Bool := (evs.reverse.findSome? (effectOn x))
+
 end HapVerif.Subs
